@@ -106,6 +106,27 @@ class Registry:
         return v
 
 
+def recv_is_external(model, recv, fi):
+    """Is the receiver of a method call an object made by an external
+    constructor (re.compile(...) and the like), directly or through a
+    local / module-level name bound to nothing else?"""
+    def ext_call(e, ctx):
+        return isinstance(e, ast.Call) and any(
+            x[0] == 'ext' for x in model.resolve_callee(e.func, ctx))
+    if ext_call(recv, fi):
+        return True
+    if isinstance(recv, ast.Name):
+        defs = model.local_defs(fi, recv.id) if fi is not None else []
+        if defs:
+            return all(isinstance(d, ast.AST) and ext_call(d, fi)
+                       for d in defs)
+        r = model.resolve_global(fi.module, recv.id) if fi else None
+        if r and r[0] == 'value' and r[1]:
+            from .model import _ModuleCtx
+            return all(ext_call(v, _ModuleCtx(r[2])) for v in r[1])
+    return False
+
+
 class CallGraph:
     def __init__(self, model, registry=None):
         self.model = model
@@ -136,9 +157,7 @@ class CallGraph:
                     if t[1] in ('eval',):
                         continue
                     recv = t[2]
-                    if isinstance(recv, ast.Call) and any(
-                            x[0] == 'ext' for x in
-                            model.resolve_callee(recv.func, fi)):
+                    if recv_is_external(model, recv, fi):
                         continue
                     cands = [g for g in model.all_funcs()
                              if g.cls is not None and g.name == t[1]
